@@ -57,11 +57,11 @@ verdicts=""
 for chk in $id $extra; do
   if [ "${SEED_IN_REPO:-0}" = 1 ]; then
     git -C /repo apply $patch || { echo "cannot apply to /repo"; exit 2; }
-    out=$(VERIF_OUT=/verif/.work/seedrun ./bin/vcheck run $chk -tier quick 2>&1)
+    out=$(VERIF_OUT=/verif/.work/seedrun-$name ./bin/vcheck run $chk -tier quick 2>&1)
     code=$?
     git -C /repo checkout -- .
   else
-    out=$(VERIF_REPO=$wt VERIF_WORK=/verif/.work/seedwork VERIF_OUT=/verif/.work/seedrun ./bin/vcheck run $chk -tier quick 2>&1)
+    out=$(VERIF_REPO=$wt VERIF_WORK=/verif/.work/seedwork-$name VERIF_OUT=/verif/.work/seedrun-$name ./bin/vcheck run $chk -tier quick 2>&1)
     code=$?
   fi
   keys=$(echo "$out" | grep '^  key:' | head -4 | sed 's/^  key: //' | paste -sd';')
@@ -84,3 +84,4 @@ meta['checks']=verdicts.strip(' |')
 json.dump(meta,open(dst+'/meta.json','w'),indent=1)
 print(json.dumps(meta,indent=1)[:1500])
 PY
+rm -rf /verif/.work/seedwork-$name /verif/.work/seedrun-$name
